@@ -1,6 +1,7 @@
 import AthlibVerif.Lemmas.HJ
 import AthlibVerif.Lemmas.CardShape
 import AthlibVerif.Lemmas.Consec
+import AthlibVerif.Lemmas.RoundLim
 /-!
 # C02 — High jump: only rule-conforming trials are recorded; refusals change nothing
 
@@ -411,6 +412,73 @@ theorem reachable_runOps (ops : List Op) : Reachable (runOps ops) := by
 example : (runOps [.add 1, .add 2, .bar 105, .trial 1 .o, .trial 2 .o, .bar 108, .trial 1 .r, .trial 2 .r]).phase = .drawn := by decide
 example : (runOps [.add 1, .add 2, .bar 105, .trial 1 .x, .trial 1 .x, .trial 1 .x, .trial 2 .x, .trial 2 .x, .trial 2 .x]).phase = .jumpoff := by decide
 example : (step (runOps [.add 1, .bar 105, .trial 1 .o]) (.trial 1 .o)).2 = .rule := by decide
+
+/-! ## three attempts at a height, one in a jump-off (Lemmas/RoundLim) -/
+
+theorem limInv_reachable (c : Comp) (h : Reachable c) : LimInv c := by
+  induction h with
+  | init => exact LimInv_init
+  | step c op hr ih => exact step_LimInv c op (wf_reachable c hr) ih
+
+/-- **The attempt limit is three, and one in a jump-off** — in every reachable competition: the number an accepted
+    trial is measured against (`C02_attempt_limit`) is 3 for every athlete while the competition is scheduled, started
+    or won, 1 for every athlete still in while a jump-off runs, and never anything else. -/
+theorem C02_limit_is_three_or_one (c : Comp) (hr : Reachable c) (j : Jumper) (hj : j ∈ c.jumpers) :
+    ((c.phase = .scheduled ∨ c.phase = .started ∨ c.phase = .won) → j.roundLim = 3) ∧
+    (c.phase = .jumpoff → j.eliminated = false → j.roundLim = 1) ∧ (j.roundLim = 1 ∨ j.roundLim = 3) :=
+  ⟨fun hq => (limInv_reachable c hr).regular hq j hj, fun hq he => (limInv_reachable c hr).jumpoff hq j hj he,
+    (limInv_reachable c hr).either j hj⟩
+
+/-- an accepted trial in a jump-off is the athlete's first and only attempt at that height; any accepted trial is at
+    most the third -/
+theorem C02_attempts_at_height (c : Comp) (hr : Reachable c) (b : Nat) (t : Trial) (h : (step c (.trial b t)).2 = .ok) :
+    ∃ j, c.find b = some j ∧ ((padCard j.card c.heights.length).getLast?.getD []).length < 3 ∧
+      (c.phase = .jumpoff → (padCard j.card c.heights.length).getLast?.getD [] = []) := by
+  obtain ⟨j, hj, _, _, he, _, hlt⟩ := C02_attempt_limit c b t h
+  have hm : j ∈ c.jumpers := List.mem_of_find?_eq_some hj
+  obtain ⟨_, hjo, hei⟩ := C02_limit_is_three_or_one c hr j hm
+  refine ⟨j, hj, by omega, fun hq => ?_⟩
+  have := hjo hq he
+  apply List.eq_nil_of_length_eq_zero
+  omega
+
+/-- `C02_trial_accepted_iff` with its side condition discharged: while the competition is in progress (`started`)
+    **every** registered athlete's call is accepted if and only if the card allows it -/
+theorem C02_trial_accepted_iff_started (c : Comp) (hr : Reachable c) (b : Nat) (t : Trial) (j : Jumper)
+    (hj : c.find b = some j) (hph : c.phase = .started) :
+    (step c (.trial b t)).2 = .ok ↔
+      (c.heights ≠ [] ∧ j.card.flatten.contains .r = false ∧ trailingX j.card.flatten < 3 ∧
+        allX ((padCard j.card c.heights.length).getLast?.getD []) = true) :=
+  C02_trial_accepted_iff c hr b t j hj
+    ((limInv_reachable c hr).regular (Or.inr (Or.inl hph)) j (List.mem_of_find?_eq_some hj)) hph
+
+/-- in a jump-off a call of an athlete still in is accepted if and only if they have not yet attempted the current
+    height (and it is not already closed for them) -/
+theorem C02_jumpoff_accepted_iff (c : Comp) (hr : Reachable c) (b : Nat) (t : Trial) (j : Jumper)
+    (hj : c.find b = some j) (hph : c.phase = .jumpoff) (he : j.eliminated = false) :
+    (step c (.trial b t)).2 = .ok ↔
+      (c.heights ≠ [] ∧ j.dismissed = false ∧ (padCard j.card c.heights.length).getLast?.getD [] = []) := by
+  have hm : j ∈ c.jumpers := List.mem_of_find?_eq_some hj
+  have h1 := (limInv_reachable c hr).jumpoff hph j hm he
+  constructor
+  · intro h
+    obtain ⟨j', hj', _, hh, _, hd, hlt⟩ := C02_attempt_limit c b t h
+    rw [hj] at hj'; injection hj' with hj'; subst hj'
+    refine ⟨hh, hd, ?_⟩
+    apply List.eq_nil_of_length_eq_zero
+    omega
+  · rintro ⟨hh, hd, hnil⟩
+    have hl0 : c.heights.length ≠ 0 := fun e => hh (List.eq_nil_of_length_eq_zero e)
+    have hta : trialAllowed c j = true := by unfold trialAllowed; simp [hph]
+    simp only [step, hj, hta, Jumper.act, he, hd, hnil, h1]
+    simp [hl0]
+
+/-- a jump-off in progress: both athletes re-instated with one attempt each -/
+example : (runOps [.add 1, .add 2, .bar 105, .trial 1 .x, .trial 1 .x, .trial 1 .x, .trial 2 .x, .trial 2 .x, .trial 2 .x]).jumpers.map
+    (fun j => (j.roundLim, j.eliminated)) = [(1, false), (1, false)] := by decide +kernel
+/-- and a second attempt at a jump-off height is refused -/
+example : (step (runOps [.add 1, .add 2, .bar 105, .trial 1 .x, .trial 1 .x, .trial 1 .x, .trial 2 .x, .trial 2 .x, .trial 2 .x,
+    .bar 104, .trial 1 .x]) (.trial 1 .x)).2 = .rule := by decide +kernel
 
 /-- a failure, a pass, and two failures at the next height: three in a row on the card, out -/
 example : (runOps [.add 1, .add 2, .bar 105, .trial 1 .x, .trial 1 .p, .bar 110, .trial 1 .x, .trial 1 .x]).jumpers.map
